@@ -42,16 +42,16 @@ Compatible(R, E) == /\ \A e \in COf(E) : <<e[2], e[3]>> \in R
 KernelOf(U, g) == { p \in U \X U : g[p[1]] = g[p[2]] }
 Entailed(U, E) == { p \in U \X U : \A g \in [U -> U] : Compatible(KernelOf(U, g), E) => g[p[1]] = g[p[2]] }
 
-\* ---------------------------------------------------------------- a faster, equivalent formulation (class maps)
-\* used by the trace specification on large universes; S checks that it agrees with Closure on the small scope
-Join(cm, x, y) == LET C == cm[x] \cup cm[y] IN [u \in DOMAIN cm |-> IF u \in C THEN C ELSE cm[u]]
+\* ---------------------------------------------------------------- a faster, equivalent formulation (representative maps)
+\* used by the trace specification (large universes, many explanations); S checks that it agrees with Closure on the small scope
+Join(rm, x, y) == LET rx == rm[x] ry == rm[y] IN IF rx = ry THEN rm ELSE [u \in DOMAIN rm |-> IF rm[u] = ry THEN rx ELSE rm[u]]
 RECURSIVE JoinAll(_,_)
-JoinAll(cm, S) == IF S = {} THEN cm ELSE LET p == CHOOSE p \in S : TRUE IN JoinAll(Join(cm, p[1], p[2]), S \ {p})
-CongPairs(cm, F) == { <<q[1][4], q[2][4]>> : q \in { q \in F \X F : /\ cm[q[1][2]] = cm[q[2][2]] /\ cm[q[1][3]] = cm[q[2][3]]
-                                                                     /\ cm[q[1][4]] # cm[q[2][4]] } }
+JoinAll(rm, S) == IF S = {} THEN rm ELSE LET p == CHOOSE p \in S : TRUE IN JoinAll(Join(rm, p[1], p[2]), S \ {p})
+\* for every f-equation the pair (its result, the result of the canonical f-equation with congruent arguments)
+CongPairs(rm, F) == { p \in { <<e[4], (CHOOSE e2 \in F : rm[e2[2]] = rm[e[2]] /\ rm[e2[3]] = rm[e[3]])[4]>> : e \in F } : rm[p[1]] # rm[p[2]] }
 RECURSIVE FastFix(_,_)
-FastFix(cm, F) == LET P == CongPairs(cm, F) IN IF P = {} THEN cm ELSE FastFix(JoinAll(cm, P), F)
-\* class map: constant |-> its congruence class
-ClassMap(U, E) == FastFix(JoinAll([u \in U |-> {u}], { <<e[2], e[3]>> : e \in COf(E) }), FOf(E))
-ClosureFast(U, E) == LET cm == ClassMap(U, E) IN { p \in U \X U : p[2] \in cm[p[1]] }
+FastFix(rm, F) == LET P == CongPairs(rm, F) IN IF P = {} THEN rm ELSE FastFix(JoinAll(rm, P), F)
+\* constant |-> a representative of its congruence class
+RepMap(U, E) == FastFix(JoinAll([u \in U |-> u], { <<e[2], e[3]>> : e \in COf(E) }), FOf(E))
+ClosureFast(U, E) == LET rm == RepMap(U, E) IN { p \in U \X U : rm[p[1]] = rm[p[2]] }
 =============================================================================
